@@ -190,10 +190,11 @@ def _ser(cfg):
 def run_sequence(ds, items, ops, sig="C08"):
     """apply ops to ds and to the model, comparing after every step; returns (applied, removed_some_not_all, labels)"""
     applied, interesting, labels = 0, False, []
-    has_meta = all(m.generation_meta is not None for m in ds.mazes) and len(ds) > 0
-    collected = ds.generation_metadata_collected is not None
     for op in ops:
         f = op["f"]
+        # applicability of metadata collection is read off the dataset at hand (several filters do not carry collected metadata over)
+        has_meta = len(ds) > 0 and all(m.generation_meta is not None for m in ds.mazes)
+        collected = ds.generation_metadata_collected is not None
         if f == "cut_percentile_shortest" and len(items) == 0:
             labels.append("skipped-op")
             continue
@@ -230,13 +231,8 @@ def run_sequence(ds, items, ops, sig="C08"):
             if want_meta is not None:
                 require(_norm(res.generation_metadata_collected) == want_meta, f"{sig}:{f}:counts",
                         f"collected {str(_norm(res.generation_metadata_collected))[:300]} expected {str(want_meta)[:300]}")
-                collected = True
-            has_meta = False
         if f == "strip_generation_meta":
             require(all(m.generation_meta is None for m in res.mazes), f"{sig}:{f}:not-stripped", "")
-            has_meta = False
-        if f == "custom":
-            collected = res.generation_metadata_collected is not None
         if 0 < len(new_items) < len(items):
             interesting = True
         if len(new_items) == 0:
